@@ -1,7 +1,7 @@
 //! Tie of the L0 whole-formatter model (coq/theories/Fmt0.v): programs of the fragment, as a tree (S-expression) and as
 //! source text in an arbitrary layout (blanks, tabs, single line breaks, redundant parentheses, semicolons, call sugar,
 //! single quotes, `;` table separators, trailing separators), formatted by the library under every whitespace configuration.
-//!   L0 <id> <windows 0|1> <spaces 0|1> <indent width> <quote style>/<call_parentheses>/<space_after_function_names> <tree> <source hex> <ok|status> <output hex>
+//!   L0 <id> <windows 0|1> <spaces 0|1> <indent width> <quote style>/<call_parentheses>/<space_after_function_names>/<collapse_simple_statement> <tree> <source hex> <ok|status> <output hex>
 use crate::common::*;
 
 #[derive(Clone)]
@@ -350,15 +350,17 @@ pub fn main(args: &[String]) {
             let style = *rng.pick(&["AutoPreferDouble", "AutoPreferSingle", "ForceDouble", "ForceSingle"]);
             let callp = *rng.pick(&["Always", "Always", "NoSingleString", "NoSingleTable", "None", "Input"]);
             let space = *rng.pick(&["Never", "Never", "Definitions", "Calls", "Always"]);
+            let collapse = *rng.pick(&["Never", "Never", "FunctionOnly", "ConditionalOnly", "Always", "Always"]);
             let cfg = config(&["syntax=Lua51", "column_width=100000", &format!("line_endings={}", if win == 1 { "Windows" } else { "Unix" }),
                                &format!("indent_type={}", if spaces == 1 { "Spaces" } else { "Tabs" }), &format!("indent_width={}", width), &format!("quote_style={}", style),
-                               &format!("call_parentheses={}", callp), &format!("space_after_function_names={}", space)]);
+                               &format!("call_parentheses={}", callp), &format!("space_after_function_names={}", space),
+                               &format!("collapse_simple_statement={}", collapse)]);
             records += 1;
             match format_guarded(&src, cfg, None) {
-                Outcome::Ok(o) => println!("L0 g{} {} {} {} {}/{}/{} {} {} ok {}", k, win, spaces, width, style, callp, space, tree, hex(src.as_bytes()), hex(o.as_bytes())),
-                Outcome::ParseError => println!("L0 g{} {} {} {} {}/{}/{} {} {} parseerror -", k, win, spaces, width, style, callp, space, tree, hex(src.as_bytes())),
-                Outcome::OtherError(_) => println!("L0 g{} {} {} {} {}/{}/{} {} {} error -", k, win, spaces, width, style, callp, space, tree, hex(src.as_bytes())),
-                Outcome::Panic(_) => println!("L0 g{} {} {} {} {}/{}/{} {} {} panic -", k, win, spaces, width, style, callp, space, tree, hex(src.as_bytes())),
+                Outcome::Ok(o) => println!("L0 g{} {} {} {} {}/{}/{}/{} {} {} ok {}", k, win, spaces, width, style, callp, space, collapse, tree, hex(src.as_bytes()), hex(o.as_bytes())),
+                Outcome::ParseError => println!("L0 g{} {} {} {} {}/{}/{}/{} {} {} parseerror -", k, win, spaces, width, style, callp, space, collapse, tree, hex(src.as_bytes())),
+                Outcome::OtherError(_) => println!("L0 g{} {} {} {} {}/{}/{}/{} {} {} error -", k, win, spaces, width, style, callp, space, collapse, tree, hex(src.as_bytes())),
+                Outcome::Panic(_) => println!("L0 g{} {} {} {} {}/{}/{}/{} {} {} panic -", k, win, spaces, width, style, callp, space, collapse, tree, hex(src.as_bytes())),
             }
         }
     }
